@@ -22,7 +22,7 @@ from vp_common import VERIF, Atom, Ctx, line, run_driver
 PROP = 'C04'
 RULE = ('C01 families (n <= 400 in quick) x ratios r in float32{0.05,0.1,1/3,0.5,0.9,0.999,1-2^-24,2^-20} + random, weighted '
         'towards strata smaller than the quota and floor(r n) not a multiple of #values; each case run in fresh processes under '
-        '3 allocator fill patterns. Non-trivial = quota > 0 and written prefix shorter than the buffer (the uninitialised tail '
+        '3 allocator fill patterns; plus LARGE-QUOTA cases (70000..200000 rows over 2-3 target values, r close to 1: per-value quota beyond 2^15). Non-trivial = quota > 0 and written prefix shorter than the buffer (the uninitialised tail '
         'exists); distinct = distinct (partition structure, r).')
 ASSUMPTIONS = ['that numba\'s compiled code performs exactly the reads the model performs is observed (MALLOC_PERTURB_ sensitivity), not proved',
                'float32 rounding: |impl - model| <= 4e-6*(1+ln n)',
@@ -47,6 +47,16 @@ def gen_case(rng, thorough, idx):
     r = float(np.float32(rng.choice(RATIOS) if rng.random() < 0.7 else rng.uniform(0.01, 0.99)))
     cc = rng.random() < 0.5
     return {'id': idx, 'family': fam, 'Y': Y, 'X': X, 'r': r, 'cc': cc, 'sample': True}
+
+
+def gen_large(rng, idx):
+    """quota floor(floor(r n)/#values) beyond 2^15 (and, thorough, 2^16): 2-3 target values over 70000..200000 rows"""
+    k = rng.choice([2, 2, 3])
+    n = rng.choice([70000, 100000, 140000]) if k == 2 else rng.choice([140000, 200000])
+    X = [i % k for i in range(n)] if rng.random() < 0.5 else [rng.randrange(k) for _ in range(n)]
+    Y = [rng.randrange(rng.choice([2, 9])) for _ in range(n)]
+    r = float(np.float32(rng.choice([0.999, 1 - 2 ** -24, 0.97])))
+    return {'id': idx, 'family': 'large-quota', 'Y': Y, 'X': X, 'r': r, 'cc': rng.random() < 0.5, 'sample': True, 'nomodel': True}
 
 
 def run_worker(path, ncases, perturb):
@@ -83,21 +93,47 @@ def run_worker(path, ncases, perturb):
     return res
 
 
+def stated_rows(X, r: Fraction):
+    """the property's own words: per distinct target value (ascending) the first floor(floor(r n)/#values) rows carrying it;
+    all rows when that quota is 0.  Cross-checked against the Lean model on every modelled case of a run."""
+    n = len(X)
+    vals = sorted(set(X))
+    q = ((r.numerator * n) // r.denominator) // len(vals)
+    if q == 0:
+        return list(range(n))
+    by = {v: [] for v in vals}
+    for i, v in enumerate(X):
+        if len(by[v]) < q:
+            by[v].append(i)
+    return [i for v in vals for i in by[v]]
+
+
 def evaluate(ctx: Ctx, cases, oracle_only=False):
     for i, c in enumerate(cases):
         c['id'] = i
-    # model: sampled rows, sample, value
+    # model: sampled rows, sample, value.  Cases marked `nomodel` (10^5 rows: the executable model is too slow there) are
+    # judged by the statement alone: the sampled vectors are the stated sample, one finite value under every allocator history,
+    # unchanged when the feature is altered outside the sample.
     req = []
-    for c in cases:
+    modelled = [c for c in cases if not c.get('nomodel')]
+    for c in modelled:
         r = Fraction(c['r'])
         req.append(line(Atom('MI'), Atom('rows'), c['X'], r.numerator, r.denominator))
         req.append(line(Atom('MI'), Atom('sample'), c['Y'], c['X'], r.numerator, r.denominator))
         req.append(est_line(c['Y'], c['X'], r, c['cc']))
     rep = run_driver(req)
     rng = ctx.rng
-    for k, c in enumerate(cases):
+    for k, c in enumerate(modelled):
         rows, samp, val = rep[3 * k:3 * k + 3]
         c['_rows'], c['_samp'], c['_val'] = rows, samp, val
+        if isinstance(rows, list) and rows != stated_rows(c['X'], Fraction(c['r'])):
+            raise RuntimeError(f'harness: stated_rows disagrees with the Lean model on X={c["X"][:40]} r={c["r"]!r}')
+    for c in cases:
+        if c.get('nomodel'):
+            rows = stated_rows(c['X'], Fraction(c['r']))
+            c['_rows'], c['_samp'], c['_val'] = rows, [[c['Y'][i] for i in rows], [c['X'][i] for i in rows]], None
+    for c in cases:
+        rows = c['_rows']
         outside = sorted(set(range(len(c['X']))) - set(rows))
         if outside:
             pick = rng.sample(outside, min(len(outside), 3))
@@ -156,7 +192,9 @@ def evaluate(ctx: Ctx, cases, oracle_only=False):
         v = vs[0]
         t = tol(n)
         ctx.traces += 1
-        if isinstance(c['_val'], list):
+        if c.get('nomodel'):
+            pass                                 # no model value: the sample and the outside-sample clauses below decide
+        elif isinstance(c['_val'], list):
             ctx.corr_fail('model-error', f'{short}: model reports {c["_val"]}', case)
         else:
             if not abs(v - c['_val']) <= t:
@@ -204,7 +242,8 @@ def corpus():
 
 def run(ctx: Ctx):
     n = 6000 if ctx.thorough() else 400
-    evaluate(ctx, corpus() + [gen_case(ctx.rng, ctx.thorough(), i) for i in range(n)])
+    evaluate(ctx, corpus() + [gen_case(ctx.rng, ctx.thorough(), i) for i in range(n)] +
+             [gen_large(ctx.rng, n + i) for i in range(4 if ctx.thorough() else 1)])
 
 
 def search(ctx: Ctx):
